@@ -32,7 +32,7 @@ RULE = (
     "would create a canary file if evaluated; (ii) corpus programs (README-style scripts, stdlib-flavoured Python) mutated by line deletion/duplication/"
     "indent shifts/token swaps, kept only if ast.parse accepts them; (iii) random text/bytes decoded as UTF-8 (surrogateescape and replace), plus an atheris "
     "campaign when available. Each case runs in a supervised child: sys.addaudithook armed around parse/emit, canary check, exception type check, soft "
-    "RLIMIT_CPU advanced per case (10 s), module-state fingerprint. Non-trivial = the input reached _eval_const/_to_c_expr (got past the regex dispatch). "
+    "RLIMIT_CPU advanced per case (10 s), peak-memory growth per case <= 300 MB, module-state fingerprint; one hostile case in eight is an amplification history (seed constant + k <= 40 self-amplifying re-assignments: x = x * x, x = x ** 64, s = s + s, nested power towers left and right). Non-trivial = the input reached _eval_const/_to_c_expr (got past the regex dispatch). "
     "distinct = distinct text."
 )
 ASSUMPTIONS = [
@@ -222,6 +222,9 @@ def _frame(e):
     return "?"
 
 
+MEM_PER_CASE_MB = 300
+
+
 # ------------------------------------------------------------------ supervised execution
 def supervise(cases, canary_dir):
     """Run cases (list of text) in a forked child with a per-case CPU budget; yields (index, result)."""
@@ -250,7 +253,11 @@ def supervise(cases, canary_dir):
                     # soft limit only: a hard limit can never be raised again, so a per-case hard limit would end the child after the first CPU second
                     resource.setrlimit(resource.RLIMIT_CPU, (cpu + CPU_PER_CASE, resource.RLIM_INFINITY))
                     out.write(f"START {j}\n")
+                    rss0 = resource.getrusage(resource.RUSAGE_SELF).ru_maxrss
                     res = run_case(cases[j], os.path.join(canary_dir, "canary"))
+                    grown_mb = (resource.getrusage(resource.RUSAGE_SELF).ru_maxrss - rss0) // 1024
+                    if grown_mb > MEM_PER_CASE_MB and res.get("status") != "FAIL":
+                        res = {"status": "FAIL", "bucket": "not-prompt:memory", "detail": f"peak memory grew by {grown_mb} MB while transpiling one script (budget {MEM_PER_CASE_MB} MB)", "reached": True}
                     out.write("END " + json.dumps([j, res]) + "\n")
                 out.close()
             finally:
@@ -278,7 +285,53 @@ def supervise(cases, canary_dir):
 
 # ------------------------------------------------------------------ generators
 @st.composite
+def amplify_case(draw):
+    """a seed constant followed by k self-amplifying re-assignments (or one nested tower): every step looks harmless, the folded value explodes"""
+    k = draw(st.integers(2, 40))
+    b, e = draw(st.integers(2, 9)), draw(st.sampled_from([2, 3, 8, 40, 63, 64]))
+    fam = draw(st.sampled_from(["pow_hist", "sq", "fsq", "str_double", "str_aug", "str_mul", "list_double", "shift", "tower_left", "tower_right", "mixed"]))
+    if fam == "pow_hist":
+        lines = [f"x = {b} ** {e}"] + [f"x = x ** {draw(st.sampled_from([2, 8, 64]))}"] * min(k, 8)
+    elif fam == "sq":
+        lines = [f"x = {b}"] + ["x = x * x"] * k
+    elif fam == "fsq":
+        lines = ["x = 1.5"] + ["x = x * x"] * k
+    elif fam == "str_double":
+        lines = ["x = 'ab'"] + ["x = x + x"] * k
+    elif fam == "str_aug":
+        lines = ["x = 'ab'"] + ["x += x"] * k
+    elif fam == "str_mul":
+        lines = ["x = 'ab'"] + [f"x = x * {draw(st.sampled_from([2, 10, 1000]))}"] * min(k, 12)
+    elif fam == "list_double":
+        lines = ["x = [1, 2]"] + ["x = x + x"] * k
+    elif fam == "shift":
+        lines = [f"x = {b}"] + ["x = x << x"] * min(k, 6)
+    elif fam == "tower_left":
+        t = f"{b} ** {e}"
+        for _ in range(draw(st.integers(2, 7))):
+            t = f"({t}) ** {draw(st.sampled_from([2, 8, 64]))}"
+        lines = [f"x = {t}"]
+    elif fam == "tower_right":
+        t = str(e)
+        for _ in range(draw(st.integers(2, 5))):
+            t = f"{draw(st.sampled_from([2, 3, 9]))} ** ({t})"
+        lines = [f"x = {t}"]
+    else:
+        lines = ["x = 'ab'", "y = 3"] + ["x = x + x", "y = y * y", "x = x + str(y)"] * min(k, 14)
+    use = draw(st.sampled_from(["sleep(x)", "mon.write(x)", "led.blink(x, 2)", "mon.write(len(x))", "led = Led(x)", "y9 = x", "lcd.line(0, x)", "if x:\n    led.on()"]))
+    place = draw(st.sampled_from(["top", "loop", "func"]))
+    body = lines + use.split("\n")
+    if place == "loop":
+        body = ["while True:"] + ["    " + ln for ln in body]
+    elif place == "func":
+        body = ["def grow(p):"] + ["    " + ln for ln in body] + ["    return p"]
+    return PRELUDE + "\n".join(body) + "\n"
+
+
+@st.composite
 def hostile_case(draw):
+    if draw(st.integers(0, 7)) == 0:
+        return draw(amplify_case())
     tmpl = draw(st.sampled_from(TEMPLATES))
     pool = hostile_pool("CANARY_PATH")
     safe_fill = ["1", "13", "x", "'s'", "True", "[1, 0]", "led"]
